@@ -5,6 +5,7 @@ import (
 	"encoding/gob"
 	"encoding/json"
 	"fmt"
+	pb "github.com/ozontech/seq-db/pkg/storeapi"
 	"os"
 	"sort"
 	"strings"
@@ -21,13 +22,13 @@ import (
 // what it observed as JSON lines. Crash points end the process with os.Exit from inside the hook.
 
 type phaseOpt struct {
-	FracSize       uint64 `json:"frac_size,omitempty"`
-	TotalSize      uint64 `json:"total_size,omitempty"`
-	CacheSize      uint64 `json:"cache_size,omitempty"`
-	MaintenanceMs  int    `json:"maintenance_ms,omitempty"`
-	SkipSortDocs   bool   `json:"skip_sort_docs,omitempty"`
-	DocBlockSize   int    `json:"doc_block_size,omitempty"`
-	FracsPerIter   int    `json:"fracs_per_iter,omitempty"`
+	FracSize      uint64 `json:"frac_size,omitempty"`
+	TotalSize     uint64 `json:"total_size,omitempty"`
+	CacheSize     uint64 `json:"cache_size,omitempty"`
+	MaintenanceMs int    `json:"maintenance_ms,omitempty"`
+	SkipSortDocs  bool   `json:"skip_sort_docs,omitempty"`
+	DocBlockSize  int    `json:"doc_block_size,omitempty"`
+	FracsPerIter  int    `json:"fracs_per_iter,omitempty"`
 }
 
 func (o phaseOpt) sdb() sdb.Opt {
@@ -43,10 +44,10 @@ type phaseStep struct {
 }
 
 type phaseSpec struct {
-	Dir        string      `json:"dir"`      // store data directory
-	Work       string      `json:"work"`     // directory with bulk files, event log and output
+	Dir        string      `json:"dir"`  // store data directory
+	Work       string      `json:"work"` // directory with bulk files, event log and output
 	Opt        phaseOpt    `json:"opt"`
-	Known      []int       `json:"known"`    // bulks the verify step knows about
+	Known      []int       `json:"known"` // bulks the verify step knows about
 	Steps      []phaseStep `json:"steps"`
 	CrashPoint string      `json:"crash_point,omitempty"`
 	CrashAt    int64       `json:"crash_at,omitempty"`
@@ -71,13 +72,13 @@ type bulkVerify struct {
 }
 
 type phaseEvent struct {
-	Ev      string       `json:"ev"`
-	Bulk    int          `json:"bulk,omitempty"`
-	Err     string       `json:"err,omitempty"`
-	Verify  []bulkVerify `json:"verify,omitempty"`
-	Foreign []string     `json:"foreign,omitempty"`
-	Fracs   []string     `json:"fracs,omitempty"`
-	Arg     string       `json:"arg,omitempty"`
+	Ev      string           `json:"ev"`
+	Bulk    int              `json:"bulk,omitempty"`
+	Err     string           `json:"err,omitempty"`
+	Verify  []bulkVerify     `json:"verify,omitempty"`
+	Foreign []string         `json:"foreign,omitempty"`
+	Fracs   []string         `json:"fracs,omitempty"`
+	Arg     string           `json:"arg,omitempty"`
 	Counts  map[string]int64 `json:"counts,omitempty"`
 }
 
@@ -172,6 +173,29 @@ func storePhase(args []string) int {
 			// let the maintenance loop run N ticks worth of wall time (logical effects are read from the fraction list afterwards)
 			time.Sleep(time.Duration(step.N) * time.Millisecond)
 			emit(phaseEvent{Ev: "fracs", Fracs: fracNames(st)})
+		case "async_start", "async_wait", "sync_search":
+			var ar asyncReq
+			if err := json.Unmarshal([]byte(step.Arg), &ar); err != nil {
+				emit(phaseEvent{Ev: "error", Err: err.Error()})
+				return 3
+			}
+			switch step.Op {
+			case "async_start":
+				ctl.Log("async start")
+				if err := asyncStart(st, ar); err != nil {
+					emit(phaseEvent{Ev: "async-start-error", Err: err.Error()})
+				} else {
+					emit(phaseEvent{Ev: "async-started", Fracs: fracNames(st)})
+				}
+			case "async_wait":
+				d := asyncWait(st, ar.ID)
+				b, _ := json.Marshal(d)
+				emit(phaseEvent{Ev: "async-result", Arg: string(b)})
+			case "sync_search":
+				d := syncDigest(st, ar)
+				b, _ := json.Marshal(d)
+				emit(phaseEvent{Ev: "sync-result", Arg: string(b)})
+			}
 		case "pace":
 			// pacing only (not a verdict): keeps the ingest rate per maintenance tick in the regime the retention limit is configured for
 			time.Sleep(time.Duration(step.N) * time.Millisecond)
@@ -378,4 +402,107 @@ func readEvents(path string) []hookEvent {
 		out = append(out, e)
 	}
 	return out
+}
+
+// ---- asynchronous search steps (C19)
+
+type asyncReq struct {
+	ID       string         `json:"id"`
+	Query    string         `json:"query"`
+	From     uint64         `json:"from"`
+	To       uint64         `json:"to"`
+	Asc      bool           `json:"asc"`
+	Interval uint64         `json:"interval"`
+	Aggs     []model.AggReq `json:"aggs"`
+	Size     int            `json:"size"`
+}
+
+type binDigest struct {
+	Total     int64     `json:"total"`
+	Sum       float64   `json:"sum"`
+	Min       float64   `json:"min"`
+	Max       float64   `json:"max"`
+	NotExists int64     `json:"not_exists"`
+	Samples   []float64 `json:"samples,omitempty"`
+}
+
+type aggDigest struct {
+	Bins      map[string]binDigest `json:"bins"`
+	NotExists int64                `json:"not_exists"`
+}
+
+type searchDigest struct {
+	Done  bool              `json:"done"`
+	Err   string            `json:"err,omitempty"`
+	IDs   []model.ID        `json:"ids"`
+	Hist  map[uint64]uint64 `json:"hist"`
+	Aggs  []aggDigest       `json:"aggs"`
+	Polls int               `json:"polls,omitempty"`
+}
+
+func digestResponse(resp *pb.SearchResponse) searchDigest {
+	d := searchDigest{Hist: map[uint64]uint64{}}
+	for _, is := range resp.IdSources {
+		d.IDs = append(d.IDs, model.ID{MID: is.Id.Mid, RID: is.Id.Rid})
+	}
+	for k, v := range resp.Histogram {
+		if v != 0 {
+			d.Hist[k] = v
+		}
+	}
+	for _, a := range resp.Aggs {
+		ad := aggDigest{Bins: map[string]binDigest{}, NotExists: a.NotExists}
+		for _, b := range a.Timeseries {
+			s := append([]float64{}, b.Hist.Samples...)
+			sort.Float64s(s)
+			ad.Bins[fmt.Sprintf("%d|%s", b.Ts.AsTime().UnixMilli(), b.Label)] = binDigest{Total: b.Hist.Total, Sum: b.Hist.Sum, Min: b.Hist.Min, Max: b.Hist.Max, NotExists: b.Hist.NotExists, Samples: s}
+		}
+		d.Aggs = append(d.Aggs, ad)
+	}
+	return d
+}
+
+func asyncStart(st *sdb.Store, r asyncReq) error {
+	ord := pb.Order_ORDER_DESC
+	if r.Asc {
+		ord = pb.Order_ORDER_ASC
+	}
+	var aggs []*pb.AggQuery
+	for _, a := range r.Aggs {
+		aggs = append(aggs, aggToPB(a))
+	}
+	_, err := st.S.GrpcV1().StartAsyncSearch(sdb.Ctx(true), &pb.StartAsyncSearchRequest{SearchId: r.ID, Query: r.Query, From: int64(r.From), To: int64(r.To),
+		Aggs: aggs, HistogramInterval: int64(r.Interval), Order: ord})
+	return err
+}
+
+// asyncWait polls until the search reports done (logical bound on polls) and digests the result.
+func asyncWait(st *sdb.Store, id string) searchDigest {
+	for polls := 1; polls <= 3000; polls++ {
+		resp, err := st.S.GrpcV1().FetchAsyncSearchResult(sdb.Ctx(true), &pb.FetchAsyncSearchResultRequest{SearchId: id, WithDocs: true, Size: 1 << 30})
+		if err != nil {
+			return searchDigest{Err: err.Error(), Polls: polls}
+		}
+		if resp.Done {
+			d := digestResponse(resp.Response)
+			d.Done, d.Polls = true, polls
+			return d
+		}
+		time.Sleep(2 * time.Millisecond)
+	}
+	return searchDigest{Err: "not done after 3000 polls", Polls: 3000}
+}
+
+func syncDigest(st *sdb.Store, r asyncReq) searchDigest {
+	var aggs []*pb.AggQuery
+	for _, a := range r.Aggs {
+		aggs = append(aggs, aggToPB(a))
+	}
+	res, err := st.Search(sdb.SearchReq{Query: r.Query, SeqQL: true, From: r.From, To: r.To, Size: r.Size, Asc: r.Asc, Interval: r.Interval, Aggs: aggs})
+	if err != nil {
+		return searchDigest{Err: err.Error()}
+	}
+	d := digestResponse(res.Raw)
+	d.Done = true
+	return d
 }
